@@ -187,7 +187,7 @@ class Gen:
         rng = self.rng
         name = self.fresh(Q_NAMES)
         row = {"name": name, "label": text(rng)}
-        variants = ["static"] * 6 + ["file"] * 3 + ["repeat", "external", "search", "search"]
+        variants = ["static"] * 6 + ["file"] * 3 + ["repeat", "repeat", "external", "external", "external", "search", "search"]
         v = rng.choice(variants)
         static_lists = list(self.lists)
         if v in ("static", "search") and not static_lists:
@@ -349,7 +349,7 @@ class Gen:
         rng = self.rng
         self.ext_lists = []
         self.ext = None
-        if rng.random() < 0.3:
+        if rng.random() < 0.4:
             nl = rng.randint(1, 2)
             self.ext_lists = rng.sample(["ext", "towns", "e.2"], nl)
             cols = ["list_name", "name"] + rng.sample(["label", "a", "state", "note col", "x"], rng.randint(0, 4))
